@@ -82,6 +82,7 @@ pub const T_REVIVE_IDX: &[&str] = &["C05", "C04", "C02"];
 pub const T_SKIP_IDX: &[&str] = &["C06", "C02"];
 pub const T_LEN_END_SKIP: &[&str] = &["C11", "C06", "C05"];
 pub const T_INDEX: &[&str] = &["C02", "C04"];
+pub const T_INDEX_CHUNK: &[&str] = &["C02", "C04", "C03"];
 pub const T_REVIVE: &[&str] = &["C05", "C04"];
 pub const T_SKIP: &[&str] = &["C06"];
 pub const T_LEN: &[&str] = &["C11"];
@@ -169,6 +170,15 @@ impl Env {
 
     /// the harness becomes owner of item `x`, expected to be the element of position `pos`
     pub fn take<T: Obs>(&mut self, x: T, pos: usize, idx_reported: bool) {
+        self.take_t(x, pos, if idx_reported { T_INDEX } else { T_CURSOR })
+    }
+
+    /// an item of a chunk: a wrong element also breaks "consecutive positions starting at the reported begin index"
+    pub fn take_chunk<T: Obs>(&mut self, x: T, pos: usize) {
+        self.take_t(x, pos, T_INDEX_CHUNK)
+    }
+
+    fn take_t<T: Obs>(&mut self, x: T, pos: usize, wrong: &'static [&'static str]) {
         let s = x.seen();
         self.obs.push(s.key as u64);
         if s.key == ZKEY && self.ki.zst {
@@ -176,7 +186,7 @@ impl Env {
         } else if !s.valid {
             self.fail(T_LEDGER, "garbage", format!("delivered element at position {pos} is destroyed / uninitialised memory (key {})", s.key));
         } else if s.key != self.key_at(pos) {
-            self.fail(if idx_reported { T_INDEX } else { T_CURSOR }, "wrong-element", format!("position {pos}: expected key {} got key {}", self.key_at(pos), s.key));
+            self.fail(wrong, "wrong-element", format!("position {pos}: expected key {} got key {}", self.key_at(pos), s.key));
         } else if self.ki.by_ref && s.addr != self.src_base + pos * self.stride {
             self.fail(T_ADDR, "address", format!("reference delivered for position {pos} does not point at the collection's element"));
         } else if self.ki.clones && !s.is_clone {
@@ -288,7 +298,7 @@ impl Env {
                         self.fail(T_CHUNKOVER, "len-mismatch", format!("{what}: chunk yields more than the {} announced elements: key {} arrives as position {}", e - b, s.key, b + *done));
                         return;
                     }
-                    self.take(x, b + *done, true);
+                    self.take_chunk(x, b + *done);
                     *done += 1;
                 }
                 None => {
@@ -315,7 +325,7 @@ impl Env {
                             let s = x.seen();
                             self.fail(T_CHUNKOVER, "len-mismatch", format!("{what}: nth({k}) of a chunk of {len} elements yielded an element (key {})", s.key));
                         } else {
-                            self.take(x, b + k, true);
+                            self.take_chunk(x, b + k);
                             let left = values.len();
                             if left != len - k - 1 && self.ok() {
                                 self.fail(T_CHUNKLEN, "len-inexact", format!("{what}: len() is {left} after nth({k}) on a chunk of {len}"));
@@ -340,7 +350,7 @@ impl Env {
             21 => {
                 let r = subj(|| values.last());
                 match r {
-                    Some(x) => self.take(x, e - 1, true),
+                    Some(x) => self.take_chunk(x, e - 1),
                     None => self.fail(T_CHUNKUNDER, "len-mismatch", format!("{what}: last() of a chunk of {len} elements yielded nothing")),
                 }
                 return;
@@ -352,7 +362,7 @@ impl Env {
                 }
                 for (j, x) in v.into_iter().enumerate() {
                     if self.ok() {
-                        self.take(x, b + 1 + j, true);
+                        self.take_chunk(x, b + 1 + j);
                     }
                 }
                 return;
@@ -659,6 +669,57 @@ where
                             if r != acc && env.ok() {
                                 env.fail(&["C12"], "fold-result", format!("fold returned {r:#x}, sequential fold of the delivered elements is {acc:#x}"));
                             }
+                        }
+                    }
+                    env.scratch = got;
+                }
+                SOp::ForEachSkip(n, k) => {
+                    // a skip from inside the closure: the call stops after the chunk it has already pulled
+                    let n = resolve(n, env.len).clamp(1, 4096);
+                    let mut got = std::mem::take(&mut env.scratch);
+                    got.clear();
+                    let mut calls = 0usize;
+                    subj(|| {
+                        itr.enumerate_for_each(n, |i, x| {
+                            got.push((i, x.seen()));
+                            drop(x);
+                            calls += 1;
+                            if calls == k {
+                                itr.skip_to_end();
+                            }
+                        })
+                    });
+                    let b = env.m.cursor;
+                    let rem = if env.m.skipped { 0 } else { env.m.len - env.m.cursor };
+                    let v = got.len();
+                    env.obs.push(v as u64);
+                    let (lo, hi) = if rem < k { (rem, rem) } else { (k, rem.min(k.div_ceil(n) * n)) };
+                    if v < lo || v > hi {
+                        let tags: &'static [&'static str] = if env.m.skipped { T_SKIP } else if v < lo { T_FOREACH } else { &["C06", "C12"] };
+                        env.fail(tags, "foreach-skip-count", format!("closure invoked {v} times; {rem} elements were undelivered, the closure skips to the end in call {k}, chunk size {n}: between {lo} and {hi} calls are possible"));
+                    } else {
+                        for (j, (idx, s)) in got.iter().enumerate() {
+                            let pos = b + j;
+                            env.obs.push(s.key as u64);
+                            if *idx != pos {
+                                env.fail(&["C12", "C02"], "foreach-index", format!("enumerate_for_each passed index {idx} for the element of position {pos}"));
+                                break;
+                            }
+                            if (s.key != env.key_at(pos) || !s.valid) && !(env.ki.zst && s.key == ZKEY) {
+                                env.fail(&["C12", "C06"], "foreach-element", format!("closure call {j} received key {} but position {pos} holds key {}", s.key, env.key_at(pos)));
+                                break;
+                            }
+                            if env.ki.consuming && pos < NPOS {
+                                env.handed[pos] += 1;
+                            }
+                        }
+                    }
+                    if !env.m.skipped {
+                        env.m.cursor += v.min(rem);
+                        if rem >= k {
+                            env.m.skipped = true;
+                        } else if n == 1 {
+                            env.m.end1 = true;
                         }
                     }
                     env.scratch = got;
